@@ -156,6 +156,21 @@ func c19Mutations(f *refdec.File, perClass int, pick func(n int) int) []c19Mut {
 			if p.Parent != 0 && p.ParentIx > 0 && len(p.Elems) > 0 {
 				// first key below the parent's separator: decrement its first differing-capable byte
 				e := p.Elems[0]
+				// minimal lowering: the largest same-length key below the separator (usually still above
+				// everything in the left sibling, so only the parent bound is violated)
+				c6b = append(c6b, c19Mut{Class: "key-order-parent", Target: fmt.Sprintf("first key of leaf page %d lowered minimally below its separator in branch page %d", p.ID, p.Parent), apply: func(g *refdec.File) bool {
+					k := g.Data[e.KeyOff : e.KeyOff+e.KeyLen]
+					for i := len(k) - 1; i >= 0; i-- {
+						if k[i] > 0 {
+							k[i]--
+							for j := i + 1; j < len(k); j++ {
+								k[j] = 0xff
+							}
+							return true
+						}
+					}
+					return false
+				}})
 				c6b = append(c6b, c19Mut{Class: "key-order-parent", Target: fmt.Sprintf("first key of leaf page %d made smaller than its separator in branch page %d", p.ID, p.Parent), apply: func(g *refdec.File) bool {
 					k := g.Data[e.KeyOff : e.KeyOff+e.KeyLen]
 					for i := range k {
